@@ -193,6 +193,7 @@ const cleanAssumptions = "programs are trees of tests/subtests with straight-lin
 var allCleanModes = []string{"default", "clean", "update", "ci", "other", "ci+update", "ci+clean"}
 
 func checkC07(c *CheckCtx) error {
+	c.variants = true // default-location scenarios also run in -trimpath and sub-package builds
 	c.Rule = "(directory, program, -count, Clean mode) scenarios: every TLC-emitted clean case within bounds and seeded random programs (record run, changed current run, Clean); non-trivial = distinct scenario with at least one addressed entry or file at Clean time"
 	c.Assumptions = []string{cleanAssumptions}
 	if err := c.cleanModel(); err != nil {
@@ -206,6 +207,9 @@ func checkC07(c *CheckCtx) error {
 		return err
 	}
 	if err := c.repro(reproK5()); err != nil {
+		return err
+	}
+	if err := c.repro(trimpathClean()...); err != nil {
 		return err
 	}
 	return c.repro(malformedTail(true, 1), malformedTail(false, 2))
@@ -332,6 +336,53 @@ func (c *CheckCtx) repro(scs ...*Scenario) error {
 		c.nontrivial(s.Note)
 	}
 	return c.runSeq(scs)
+}
+
+// trimpathClean: Clean in binaries built with -trimpath (the registries hold the relative paths the
+// call stack reports), default / relative / absolute Dir: what this run matched is neither listed
+// nor deleted, and replays afterwards.
+func trimpathClean() []*Scenario {
+	var out []*Scenario
+	n := 0
+	for _, variant := range []string{"trimpath", "envtrimpath", "deep-trimpath", "deep", ""} {
+		for _, dirKind := range []string{"", "rel", "abs"} {
+			for _, mode := range []string{"default", "clean"} {
+				n++
+				sc := &Scenario{ID: fmt.Sprintf("tp%d", n), Configs: map[string]*Cfg{}, DefaultLoc: true, WatchRel: []string{"relsnaps"}, Program: []string{"TestA", "TestB"}}
+				k := &Cfg{}
+				switch dirKind {
+				case "rel":
+					k.Dir = sp("relsnaps")
+				case "abs":
+					k.Dir = sp("@/abs/snaps")
+				}
+				sc.Configs["k"] = k
+				tests := func() map[string]*TDef {
+					return map[string]*TDef{
+						"TestA": {Execs: [][]*Step{{{Op: "match", API: "snapshot", Cfg: "k", Val: strVal("one")}, {Op: "match", API: "ssnap", Cfg: "k", Val: strVal("alone")}}}},
+						"TestB": {Execs: [][]*Step{{{Op: "match", API: "json", Cfg: "k", Val: strVal(`{"a":1}`)}}}},
+					}
+				}
+				base := ProcSpec{Variant: variant}
+				if variant == "envtrimpath" {
+					base = ProcSpec{Env: map[string]string{"GOFLAGS": "-trimpath"}}
+				}
+				p1 := base
+				p2 := base
+				if mode == "clean" {
+					p2.UpdVar = sp("clean")
+				}
+				p3 := base
+				p3.CI = "CI"
+				sc.Procs = append(sc.Procs, &Proc{Spec: p1, Real: true, State: "call", Clean: &CleanDef{}, Tests: tests()})
+				sc.Procs = append(sc.Procs, &Proc{Spec: p2, Real: true, State: "call", Clean: &CleanDef{Sort: n%2 == 0}, Tests: tests()})
+				sc.Procs = append(sc.Procs, &Proc{Spec: p3, Real: true, State: "call", Clean: &CleanDef{}, Tests: tests()})
+				sc.Note = fmt.Sprintf("Clean in a %q build, Dir %q, mode %s: matched snapshots are kept and replay", variant, dirKind, mode)
+				out = append(out, sc)
+			}
+		}
+	}
+	return out
 }
 
 // malformedTail: a used file that ends with an entry lacking its terminator (truncated / badly
